@@ -19,16 +19,20 @@ subprocess.run(f'git -C /repo worktree remove --force {wt}', shell=True, capture
 subprocess.run(f'git -C /repo worktree add -q --detach {wt} HEAD', shell=True, check=True)
 try:
     dp = open(f'{sd}/demo_path.txt').read()
-    places = re.findall(r'^\s*[`"]?([\w\./\-]+\.go)[`"]?\s*(?:->|=>|→|:)\s*[`"]?([\w\./\-]+\.go)[`"]?', dp, re.M)
-    if not places:
-        # fall back: every *_test.go in the seed dir goes to the first directory path mentioned
-        m = re.search(r'([\w\-/\.]+)/zz_seed_demo[\w]*_test\.go', dp)
-        places = [(os.path.basename(f), (m.group(1) + '/' if m else '') + os.path.basename(f)) for f in glob.glob(f'{sd}/*_test.go')]
-    cmds = [l.strip().strip('`') for l in dp.splitlines() if re.search(r'\bgo (test|run)\b', l)]
-    cmds = [re.sub(r'^\$\s*', '', c) for c in cmds if not c.startswith('export')]
-    cmds = [re.sub(r'^.*?(go (?:test|run)\b)', r'\1', c) for c in cmds]
+    cmds = [l.strip().strip('`') for l in dp.splitlines() if re.search(r'\bgo (test|run)\b', l) and 'go test ./...' not in l]
+    cmds = [re.sub(r'^.*?(go (?:test|run)\b)', r'\1', c) for c in cmds if not c.startswith('export')]
+    cmds = [re.sub(r'\s+2>&1.*$', '', c) for c in cmds]
     if not cmds: raise SystemExit('no demo command in demo_path.txt')
-    cmd = cmds[0]
+    pkgdirs = re.findall(r'\./([\w\-/\.]+?)/?(?:\s|$)', ' '.join(cmds))
+    places = []
+    for f in sorted(glob.glob(f'{sd}/*.go')):
+        base = os.path.basename(f)
+        cands = [t for t in re.findall(r'[\w\./\-]+/' + re.escape(base), dp) if not t.startswith(('SEED', '/tmp', './SEED'))]
+        if cands:
+            places.append((base, cands[0].lstrip('./')))
+        elif pkgdirs:
+            places.append((base, pkgdirs[0] + '/' + base))
+    cmd = ' && '.join(dict.fromkeys(cmds))
     res.update(demo_places=places, demo_cmd=cmd)
     rc, out = sh(f'git apply {sd}/patch.diff')
     res['applies'] = rc == 0
